@@ -139,7 +139,7 @@ def gen_history(seed, tier, classes=None, weights=None, n_ops=(6, 16),
                 max_handles=3, pre_p=0.4, dmax=6, fresh_p=0.0, dataset_kinds=None,
                 unknown=False, verbose_p=0.15, extras_p=0.5, share_p=0.3,
                 classifier_bias=1, cp_fit_p=0.25, cp_invalid_p=0.0, calib_invalid_p=0.25,
-                store_bias=1, tiny_scale_p=0.0, wide_p=0.0, grid_p=0.0, failfirst_p=0.05, crash_sweep_p=0.0, buffer_p=0.0):
+                store_bias=1, tiny_scale_p=0.0, wide_p=0.0, grid_p=0.0, failfirst_p=0.05, crash_sweep_p=0.0, buffer_p=0.0, view_p=0.0):
   r = substream(seed, "hist")
   if wide_p and substream(seed, "hist-wide").random() < wide_p:
     return gen_wide_history(seed)
@@ -164,6 +164,18 @@ def gen_history(seed, tier, classes=None, weights=None, n_ops=(6, 16),
     kind = r.choice(dataset_kinds) if dataset_kinds else None
     datasets["D%d" % i] = gen_dataset(r, dmax=dmax, kind=kind, unknown=unknown,
                                       tiny_scale_p=tiny_scale_p)
+  if view_p and r.random() < view_p:
+    # a second store that is a slice of D0's array (train / validation split of
+    # one array): swapping one for the other as preprocessor must take effect
+    import copy as _copy
+    b = datasets["D0"]
+    start = r.randint(1, max(1, b["n"] // 5))
+    datasets["D0v"] = dict(view_of=_copy.deepcopy(b), start=start, seed=r.randrange(10**6),
+                           n=b["n"] - start, d=b["d"], classes=b["classes"], kind=b.get("kind", "blobs"),
+                           extra=b.get("extra", 0), tuples=b.get("tuples", 0),
+                           label_stride=b.get("label_stride", 1), label_offset=b.get("label_offset", 0))
+    if b.get("unknown"):
+      datasets["D0v"]["unknown"] = b["unknown"]
   dkeys = sorted(datasets)
   plan = dict(run_seed=seed, datasets=datasets, ops=[],
               world=dict(jumpy_clock=r.random() < 0.3,
@@ -175,6 +187,8 @@ def gen_history(seed, tier, classes=None, weights=None, n_ops=(6, 16),
   def new_handle():
     name = r.choice(classes)
     dk = r.choice(dkeys)
+    if "D0v" in datasets and r.random() < 0.5:
+      dk = r.choice(["D0", "D0v"])
     D = _data(datasets[dk])
     p = params_for(name, r, D)
     if p is None:
@@ -192,6 +206,8 @@ def gen_history(seed, tier, classes=None, weights=None, n_ops=(6, 16),
         cls_params(name):
       p["verbose"] = True
     pre = r.choice(["ndarray", "list"] + ["store"] * store_bias) if r.random() < pre_p else None
+    if "D0v" in datasets and dk in ("D0", "D0v") and r.random() < 0.5:
+      pre = "ndarray"
     hid = len(syms)
     op = dict(op="new", h=hid, cls=name, params=p)
     if pre:
@@ -285,6 +301,8 @@ def gen_history(seed, tier, classes=None, weights=None, n_ops=(6, 16),
   if s0 is None:
     return plan                 # nothing feasible for this seed: an empty history
   fit_op(s0)
+  if "D0v" in datasets and W.get("swap_pre"):
+    W["swap_pre"] = max(W["swap_pre"], 12)
   total = r.randint(*n_ops)
   guard = 0
   while len(ops) < total and guard < 200:
@@ -368,6 +386,10 @@ def gen_history(seed, tier, classes=None, weights=None, n_ops=(6, 16),
       # none) and refit: the new preprocessor must be the one that is used
       other = r.choice(dkeys)
       newpre = r.choice(["ndarray", "list", "store", None])
+      if "D0v" in datasets and s.data in ("D0", "D0v") and r.random() < 0.7:
+        # the other half of the same array (a slice sharing its memory)
+        other = "D0v" if s.data == "D0" else "D0"
+        newpre = r.choice(["ndarray", "ndarray", "ndarray", "list", "store"])
       op = dict(op="set_params", h=s.hid, params={}, pre=newpre)
       if newpre:
         op["pre_data"] = other
@@ -591,6 +613,8 @@ def history_shrink_moves(plan, violation):
         yield p
   # shrink datasets
   for dk, desc in sorted(plan["datasets"].items()):
+    if desc.get("view_of"):
+      continue
     for key, lo in (("n", 4 * desc["d"]), ("tuples", 8), ("extra", 0), ("classes", 2)):
       if key in desc and desc[key] > lo:
         p = copy.deepcopy(plan)
